@@ -2812,6 +2812,11 @@ def _engine_verify_block(self, contract):
                 for i, en in enumerate(contract.ensures):
                     self.oblige(s, "block.ensures[%d]" % i, self.eval_spec(en, s), 0)
             continue
+        if getattr(contract, "block_exit", None) == "normal" and kind == RETURN:
+            # the block must NOT leave the function: a `return` on a feasible path is a failed obligation
+            ends += 1
+            self.oblige(s, "block.does-not-return", z3.BoolVal(False), 0)
+            continue
         if kind != NORMAL:
             continue
         ends += 1
